@@ -186,30 +186,25 @@ def asRO0 (s : State) (i : Nat) : State :=
     else ((s.freezeV o.vals).freezeM o.mask).setObj i fun o => { o with ro := true }
   | none => s
 
-/-- `as_readonly` of an object that has no derivatives of its own (a derivative, a cached `wod`): lines 1931-1943.
-    The only Qube in the cache is `wod`, which has no derivatives and shares this cache. -/
-def asROd (s : State) (i : Nat) : State :=
-  match s.objs[i]? with
-  | some o =>
-    if o.ro then s
-    else
-      let s := asRO0 s i
-      match o.wodc with
-      | some w => asRO0 s w
-      | none => s
-  | none => s
+/-- `as_readonly(recursive)`: qube.py:1931-1950 (with 0796652: the derivatives are made read-only whether or not
+    `recursive` is set).  The call recurses into the cached `wod` (`value.as_readonly(recursive)`) and into every
+    derivative (`self._derivs_[key].as_readonly()`), which recurse in turn; `fuel` bounds the depth (a stored
+    derivative and a cached `wod` are always younger objects than their owner, so the number of objects is enough). -/
+def asROf : Nat → State → Nat → State
+  | 0, s, _ => s
+  | fuel + 1, s, i =>
+    match s.objs[i]? with
+    | some o =>
+      if o.ro then s
+      else
+        let s1 := asRO0 s i
+        let s2 := match o.wodc with
+          | some w => asROf fuel s1 w
+          | none => s1
+        o.derivs.foldl (fun s kd => asROf fuel s kd.2) s2
+    | none => s
 
-/-- `as_readonly(recursive)`: lines 1931-1950 as repaired by 0796652 (branch wt-C05): the derivatives are made
-    read-only whether or not `recursive` is set (the flag only travels to the cached objects, which have no
-    derivatives). -/
-def asRO (s : State) (i : Nat) (_recursive : Bool) : State :=
-  match s.objs[i]? with
-  | some o =>
-    if o.ro then s
-    else
-      let s := asROd s i
-      o.derivs.foldl (fun s kd => asROd s kd.2) s
-  | none => s
+def asRO (s : State) (i : Nat) (_recursive : Bool) : State := asROf (s.objs.length + 1) s i
 
 /-- `require_writable` (qube.py:1964-1976).  The `remask` of lines 1975-1976 returns a new object that is dropped,
     so the state never changes. -/
@@ -361,17 +356,24 @@ def derive1 (s : State) (i : Nat) (m : Mode) (sel : Sel) : Nat × State :=
     finishDerived k.2 v.1 k.1 o m
   | none => (i, s)
 
+/-- the selection that applies to the derivative with key `k`: the same elements, but its own mask may be a bool
+    where the object's is an array and vice versa (`dsel`, data of the request) -/
+def selFor (dsel : List (Nat × Sel)) (k : Nat) (sel : Sel) : Sel :=
+  match dsel.find? (fun p => p.1 == k) with
+  | some p => p.2
+  | none => sel
+
 /-- one pass of `obj.insert_deriv(key, <same derivation of the derivative>)` -/
-def deriveStep (c : Nat) (m : Mode) (sel : Sel) (s : State) (kd : Nat × Nat) : State :=
-  let nd := derive1 s kd.2 m sel
+def deriveStep (c : Nat) (m : Mode) (sel : Sel) (dsel : List (Nat × Sel)) (s : State) (kd : Nat × Nat) : State :=
+  let nd := derive1 s kd.2 m (selFor dsel kd.1 sel)
   (insertDeriv nd.2 c kd.1 nd.1 true).1
 
 /-- the whole derivation: the object, then its derivatives -/
-def derive (s : State) (i : Nat) (m : Mode) (sel : Sel) (recursive : Bool) : Nat × State :=
+def derive (s : State) (i : Nat) (m : Mode) (sel : Sel) (recursive : Bool) (dsel : List (Nat × Sel)) : Nat × State :=
   match s.objs[i]? with
   | some o =>
     let c := derive1 s i m sel
-    if recursive then (c.1, o.derivs.foldl (deriveStep c.1 m sel) c.2) else c
+    if recursive then (c.1, o.derivs.foldl (deriveStep c.1 m sel dsel) c.2) else c
   | none => (i, s)
 
 /-! ### copy (qube.py:1982-2028) -/
@@ -442,6 +444,7 @@ def neg (s : State) (i : Nat) : Nat × State :=
 /-- what the encoder sees in the mask (data of the request) -/
 inductive MaskClass where
   | none_ | all_ | mixed
+  | mixedLossy      -- some value under the mask differs from the default that unpickling puts there
   deriving DecidableEq, Repr, Inhabited
 
 /-- the decoded arrays of one object: new and writeable -/
@@ -454,6 +457,11 @@ def decode (s : State) (o : Obj) (mc : MaskClass) : (Val × Msk) × State :=
     | .none_ => let r := s.copyOf a (allPos s a); ((.arr r.1, .sc false), r.2)
     | .mixed =>
       let r := s.copyOf a (allPos s a)
+      match o.mask with
+      | .arr m => let q := r.2.copyOf m (allPos r.2 m); ((.arr r.1, .arr q.1), q.2)
+      | .sc b => ((.arr r.1, .sc b), r.2)
+    | .mixedLossy =>                                       -- ANTIMASKED: the masked elements come back as defaults
+      let r := s.freshArr (allPos s a).length true
       match o.mask with
       | .arr m => let q := r.2.copyOf m (allPos r.2 m); ((.arr r.1, .arr q.1), q.2)
       | .sc b => ((.arr r.1, .sc b), r.2)
@@ -505,9 +513,9 @@ def unpickle (s : State) (i : Nat) (mc : MaskClass) (dmc : List (Nat × MaskClas
 /-! ### the mutators -/
 
 /-- indexer.py:154-163: a scalar True mask becomes an array before an unmasked value is assigned -/
-def expandMask (s : State) (m : Msk) (mpos : List Nat) : Msk × State :=
+def expandMask (s : State) (m : Msk) (mn : Nat) : Msk × State :=
   match m with
-  | .sc true => let r := s.freshArr (mpos.foldl Nat.max 0 + 1) true; (.arr r.1, r.2)
+  | .sc true => let r := s.freshArr mn true; (.arr r.1, r.2)     -- np.ones(self._shape_): `mn` = number of elements
   | m => (m, s)
 
 /-- indexer.py:192-194: the mask array is copied, then written -/
@@ -521,7 +529,7 @@ def writeMask (s : State) (m : Msk) (mpos : List Nat) : Msk × State :=
 /-- `obj[pos] = <plain number>` for an object whose values are an array and a basic index that is not empty
     (indexer.py:95-245, the path of lines 136-245 with an unmasked right-hand side that has no derivatives).
     `fuel` bounds the descent into derivatives (derivatives have none of their own). -/
-def setItem (s : State) (i : Nat) (pos mpos : List Nat) : Nat → State × Res
+def setItem (s : State) (i : Nat) (pos mpos : List Nat) (mn : Nat) : Nat → State × Res
   | 0 => (s, .err .bad)
   | fuel + 1 =>
     match requireWritable s i with                                                   -- line 97
@@ -532,7 +540,11 @@ def setItem (s : State) (i : Nat) (pos mpos : List Nat) : Nat → State × Res
         match o.vals with
         | .sc _ => (s, .err .bad)
         | .arr a =>
-          let m0 := expandMask s o.mask mpos                                         -- lines 154-163
+          -- `_require_assignable` (indexer.py:256-275): every derivative must be writable before anything is written
+          match o.derivs.findSome? (fun kd => requireWritable s kd.2) with
+          | some e => (s, .err e)
+          | none =>
+          let m0 := expandMask s o.mask mn                                           -- lines 154-163
           let s1 := m0.2.setObj i fun x => { x with mask := m0.1 }
           let w := s1.writeArr a pos                                                 -- line 191
           if !w.2 then (w.1, .err .value)
@@ -543,12 +555,48 @@ def setItem (s : State) (i : Nat) (pos mpos : List Nat) : Nat → State × Res
             o.derivs.foldl (fun (acc : State × Res) kd =>
               match acc.2 with
               | .err _ => acc
-              | _ => setItem acc.1 kd.2 pos mpos fuel) (s2, .ok)
+              | _ => setItem acc.1 kd.2 pos mpos mn fuel) (s2, .ok)
       | none => (s, .err .bad)
 
+/-- what `insert_deriv(key, self_deriv.zeros(shape, mask=self._mask_), override=True)` stores (indexer.py:135-141): a
+    new writable object of zeros with the object's new mask (the bool False), no units, no derivatives
+    (insert_deriv keeps a clone of it, which shares the arrays; the intermediate object is not allocated here) -/
+def zeroDeriv (s : State) (n d : Nat) : Nat × State :=
+  match s.objs[d]? with
+  | some od =>
+    let a := s.freshArr n true
+    a.2.allocObj { od with vals := .arr a.1, mask := .sc false, ro := false, units := 0, derivs := [], wodc := none }
+  | none => (d, s)
+
+def setAllStep (i n : Nat) (s : State) (kd : Nat × Nat) : State :=
+  let z := zeroDeriv s n kd.2
+  z.2.setObj i fun x => { x with derivs := setKey x.derivs kd.1 z.1, wodc := none }
+
+/-- `obj[:] = <plain number>` / `obj[...] = <plain number>` on an object with a shape: the index is "consistent with
+    shapeless indexing", so the object is not written through -- its arrays are REPLACED (indexer.py:101-134) -/
+def setAll (s : State) (i : Nat) : State × Res :=
+  match requireWritable s i with                                                     -- line 97
+  | some e => (s, .err e)
+  | none =>
+    match s.objs[i]? with
+    | some o =>
+      match o.vals with
+      | .sc _ => (s, .err .bad)
+      | .arr a =>
+        match o.derivs.findSome? (fun kd => requireWritable s kd.2) with             -- `_require_assignable`
+        | some e => (s, .err e)
+        | none =>
+          let n := (allPos s a).length
+          let v := s.freshArr n true                                                 -- arg.broadcast_to(..).copy()
+          let s1 := v.2.setObj i fun x => { x with vals := .arr v.1, mask := .sc false, wodc := none }
+          (o.derivs.foldl (setAllStep i n) s1, .ok)
+    | none => (s, .err .bad)
+
 /-- `obj += <number / constant of the class>` (qube.py:2927-2968; `-=`, `*=`, `/=`, `//=`, `%=` have the same shape).
-    `fast`: the rank-0 shortcut of lines 2931-2934 (no cache clear). -/
-def iop (s : State) (i : Nat) (fast : Bool) : State × Res :=
+    `fast`: the rank-0 shortcut of lines 2931-2934 (`_new_values_`: only `unshrunk` and `wod` leave the cache).
+    `unsupported`: the class overrides the operator with an unconditional raise (Boolean arithmetic, Matrix `//=`). -/
+def iop (s : State) (i : Nat) (fast unsupported : Bool) : State × Res :=
+  if unsupported then (s, .err .type) else
   match requireWritable s i with
   | some e => (s, .err e)
   | none =>
@@ -557,11 +605,11 @@ def iop (s : State) (i : Nat) (fast : Bool) : State × Res :=
       match o.vals with
       | .sc _ =>
         let r := s.stamps 1
-        (r.2.setObj i fun x => { x with vals := .sc (r.1.headD 0), wodc := if fast then x.wodc else none }, .ok)
+        (r.2.setObj i fun x => { x with vals := .sc (r.1.headD 0), wodc := none }, .ok)
       | .arr a =>
         let w := s.writeArr a (allPos s a)
         if !w.2 then (w.1, .err .value)
-        else if fast then (w.1, .ok)
+        else if fast then (w.1.setObj i fun x => { x with wodc := none }, .ok)  -- `_new_values_` drops the cached wod
         else
           -- lines 2963-2967: mask (unchanged object), units, insert_derivs(own derivatives), cache
           ((o.derivs.foldl (fun s kd => (insertDeriv s i kd.1 kd.2 false).1) w.1).setObj i
@@ -614,7 +662,7 @@ def insertDerivs (s : State) (i : Nat) (kds : List (Nat × Nat)) (override : Boo
 inductive Op where
   | mk (n mn : Nat) (mask : Option Bool) (unitsOk derivsOk : Bool) -- a new array object (`mask = none`: a mask array of mn cells)
   | mks (mask : Bool) (unitsOk derivsOk : Bool)                    -- a new object holding one Python number
-  | derive (v : Nat) (m : Mode) (sel : Sel) (recursive : Bool)
+  | derive (v : Nat) (m : Mode) (sel : Sel) (recursive : Bool) (dsel : List (Nat × Sel))
   | wod (v : Nat)
   | clone (v : Nat) (recursive : Bool)
   | copy (v : Nat) (recursive readonly : Bool)
@@ -623,8 +671,9 @@ inductive Op where
   | getDeriv (v k : Nat)
   | rawRef (v : Nat) (mask : Bool)                                  -- `b.values` / `b.mask`: the ndarray object itself
   | rawView (v : Nat) (mask : Bool) (idx : List Nat)                -- `b.values[...]`: a NumPy view made by the caller
-  | setItem (v : Nat) (pos mpos : List Nat)                         -- cells of the values / of the mask array
-  | iop (v : Nat) (fast : Bool)
+  | setItem (v : Nat) (pos mpos : List Nat) (mn : Nat)              -- cells of the values / of the mask array; mask size
+  | setAll (v : Nat)                                                -- `obj[:] = number`: the arrays are replaced
+  | iop (v : Nat) (fast unsupported : Bool)
   | setUnits (v u : Nat) (override : Bool)
   | deleteDeriv (v k : Nat) (override : Bool)
   | deleteDerivs (v : Nat) (override : Bool)
@@ -663,9 +712,9 @@ def objRes (r : Nat × State) : State × Res := (r.2, .obj r.1)
 def step (s : State) : Op → State × Res
   | .mk n mn mask uok dok => objRes (mkObj s n mn mask uok dok)
   | .mks mask uok dok => objRes (mkScalar s mask uok dok)
-  | .derive v m sel r =>
+  | .derive v m sel r dsel =>
     match s.objs[v]? with
-    | some _ => objRes (derive s v m sel r)
+    | some _ => objRes (derive s v m sel r dsel)
     | none => (s, .err .bad)
   | .wod v =>
     match s.objs[v]? with
@@ -704,8 +753,9 @@ def step (s : State) : Op → State × Res
       let r := s.viewOf a idx false
       ({ r.2 with user := r.2.user ++ [r.1] }, .usr s.user.length)
     | none => (s, .err .bad)
-  | .setItem v pos mpos => setItem s v pos mpos 2
-  | .iop v fast => iop s v fast
+  | .setItem v pos mpos mn => setItem s v pos mpos mn (s.objs.length + 1)
+  | .setAll v => setAll s v
+  | .iop v fast un => iop s v fast un
   | .setUnits v u ov => setUnits s v u ov
   | .deleteDeriv v k ov => deleteDeriv s v k ov
   | .deleteDerivs v ov => deleteDerivs s v ov
